@@ -53,6 +53,70 @@ func init() {
 		if !found {
 			return fmt.Errorf("config.go: handshakeTimeout() is no longer `<int literal> * c.HandshakeIdleTimeout`")
 		}
+		// transport.go / u_transport.go: the connection re-created after a Version Negotiation packet
+		// (`case params := <-recreateChan: return t.doDial(ctx, sendConn, tlsConf, config, params.nextPacketNumber,
+		// <hasNegotiatedVersion>, use0RTT, params.nextVersion)`): the 6th argument, as written
+		for _, f := range []struct{ file, lean string }{{"transport.go", "recreateArgTransport"}, {"u_transport.go", "recreateArgUTransport"}} {
+			arg, err := recreateArg(c, filepath.Join(c.Repo, f.file))
+			if err != nil {
+				return err
+			}
+			w.P("/-- %s doDial: hasNegotiatedVersion argument of the re-dial after Version Negotiation, as written: `%s` -/", f.file, arg)
+			w.P("def %sExpr : String := %q", f.lean, arg)
+			w.P("def %s : Bool := %v", f.lean, arg == "true")
+		}
 		return nil
 	})
+}
+
+// recreateArg returns the source text of the hasNegotiatedVersion argument of the recursive doDial call
+// inside doDial's `case params := <-recreateChan` branch.
+func recreateArg(c *Ctx, file string) (string, error) {
+	af, err := parser.ParseFile(c.Fset, file, nil, 0)
+	if err != nil {
+		return "", err
+	}
+	var out []string
+	for _, d := range af.Decls {
+		fd, ok := d.(*ast.FuncDecl)
+		if !ok || fd.Name.Name != "doDial" || fd.Body == nil {
+			continue
+		}
+		// position of the hasNegotiatedVersion parameter
+		idx, n := -1, 0
+		for _, fl := range fd.Type.Params.List {
+			for _, nm := range fl.Names {
+				if nm.Name == "hasNegotiatedVersion" {
+					idx = n
+				}
+				n++
+			}
+		}
+		if idx < 0 {
+			return "", fmt.Errorf("%s: doDial has no hasNegotiatedVersion parameter", file)
+		}
+		ast.Inspect(fd.Body, func(nd ast.Node) bool {
+			ce, ok := nd.(*ast.CallExpr)
+			if !ok {
+				return true
+			}
+			sel, ok := ce.Fun.(*ast.SelectorExpr)
+			if !ok || sel.Sel.Name != "doDial" || len(ce.Args) != n {
+				return true
+			}
+			switch a := ce.Args[idx].(type) {
+			case *ast.Ident:
+				out = append(out, a.Name)
+			case *ast.BasicLit:
+				out = append(out, a.Value)
+			default:
+				out = append(out, fmt.Sprintf("<expr@%d>", c.Fset.Position(a.Pos()).Line))
+			}
+			return true
+		})
+	}
+	if len(out) != 1 {
+		return "", fmt.Errorf("%s: expected exactly one recursive doDial call in doDial, found %d", file, len(out))
+	}
+	return out[0], nil
 }
